@@ -46,6 +46,7 @@ func headerOf(tape []byte, ps []*party) (string, []byte, []int, error) {
 
 func runC06(cx *ctx) {
 	r := cx.rng
+	c06CliCases(cx)
 	// the chunk counter beyond its lowest byte: 257 chunks (16 MiB), byte-exact against the Lean reference
 	{
 		rb := r.Fork()
